@@ -169,13 +169,8 @@ Section Rigid.
     cbn [leb ROps]. unfold Rleb. destruct (Rle_dec eps (dot dip dip)); [|contradiction].
     cbn [fst snd]. equiv. reflexivity.
   Qed.
-  (** the distance is invariant in both arms *)
-  Theorem point_to_circle_dist_rigid (p c : V3R) (r : R) (n : V3R) (eps : R) :
-    fst (point_to_circle (g p) (g c) r (mulMV Rg n) eps) = fst (point_to_circle p c r n eps).
-  Proof.
-    unfold point_to_circle, point_to_circle_full. equiv.
-    destruct (_ <=? _)%o; cbn [fst snd]; equiv; reflexivity.
-  Qed.
+  (** on the axis (second arm) the code picks [perpendicular_to_vector n], a WORLD-frame choice, and measures the distance
+      to that point: neither the point nor (for sqr_len in (0, eps)) the distance is equivariant there; C11 judges that arm. *)
 
   (** ** pose-based leaves: point_to_box, point_to_cylinder *)
   Definition moveP (T : Pose R) : Pose R := compose (P Rg t) T.
